@@ -7,3 +7,11 @@
 #include "src/heap.c"
 #include "contracts/heap_collect.h"
 void h_collect_ex(void) { g_is_main = vc_nondet_bool("g_is_main"); g_tid = vc_nondet_size("g_tid"); mi_heap_t* h; mi_heap_collect_ex(h, (mi_collect_t)vc_nondet_int("collect")); VC_REACH(); }
+void h_page_collect(void) {
+  g_cpage = malloc(sizeof(mi_page_t)); g_cpq = malloc(sizeof(mi_page_queue_t));
+  __CPROVER_assume(g_cpage != NULL && g_cpq != NULL);
+  g_used_after = vc_nondet_u16("g_used_after"); g_pfc_n = 0; g_segc_n = 0; g_cpf_n = 0; g_cab_n = 0;
+  mi_collect_t c = (mi_collect_t)vc_nondet_int("collect"); mi_heap_t* h; void* a2;
+  bool r = mi_heap_page_collect(h, g_cpq, g_cpage, &c, a2);
+  VC_REACH();
+}
